@@ -99,7 +99,17 @@ func run(c Case, rec *h.Rec) {
 		return
 	}
 	if o.Overflow {
-		rec.Skip("header settings make a block exceed 64 KiB (ErrBlockOverflow)")
+		// a block did not fit: the writer said so. What it did write must still be
+		// well-formed members, and the marker may only follow a Close that returned nil.
+		if _, err := bz.Walk(o.Out); err != nil {
+			rec.Failf("after ErrBlockOverflow the output is not a sequence of well-formed BGZF members: %v", err)
+			return
+		}
+		if closedOK := !c.S.NoClose && o.Closed && o.CloseErr == nil; bz.HasMarker(o.Out) != closedOK {
+			rec.Failf("after ErrBlockOverflow: output ends with the EOF marker: %v, closed without error: %v", bz.HasMarker(o.Out), closedOK)
+			return
+		}
+		rec.Class("block_overflow_reported")
 		return
 	}
 	if len(o.Errs) > 0 {
@@ -231,8 +241,139 @@ func firstDiff(a, b []byte) int {
 	return len(a)
 }
 
+// member_size_edge: a full block of incompressible data plus gzip header
+// settings sized so that the member comes out at 64 KiB-3 .. 64 KiB+4 bytes.
+// Up to 65536 bytes the member is legal and must be written with BSIZE =
+// length-1; one byte more cannot be expressed in BSIZE and must be refused
+// with ErrBlockOverflow (no error: the stream would be malformed).
+type ECase struct {
+	Level  int
+	WC     int
+	Seed   uint64
+	Short  int    // payload is BlockSize-Short bytes
+	Target int    // wanted member size
+	Via    string // name, comment, extra, mixed
+	Flush  bool   // the block is sent by Flush (then Close) rather than by Close
+}
+
+func drawE(t *rapid.T) ECase {
+	return ECase{
+		Level:  rapid.SampledFrom([]int{-1, 0, 1, 2, 3, 5, 6, 9}).Draw(t, "level"),
+		WC:     rapid.SampledFrom([]int{1, 2, 4}).Draw(t, "wc"),
+		Seed:   uint64(rapid.IntRange(0, 1<<20).Draw(t, "seed")),
+		Short:  rapid.SampledFrom([]int{0, 0, 0, 1, 7}).Draw(t, "short"),
+		Target: 65536 + rapid.IntRange(-3, 4).Draw(t, "delta"),
+		Via:    rapid.SampledFrom([]string{"name", "comment", "extra", "mixed"}).Draw(t, "via"),
+		Flush:  rapid.Bool().Draw(t, "flush"),
+	}
+}
+
+func pad(via string, n int) *bz.Hdr {
+	hd := &bz.Hdr{OS: -1}
+	str := func(k int) string { return string(bytes.Repeat([]byte{'n'}, k)) }
+	switch {
+	case n == 0:
+		return hd
+	case via == "name" && n >= 2:
+		hd.Name = str(n - 1)
+	case via == "comment" && n >= 2:
+		hd.Comment = str(n - 1)
+	case via == "mixed" && n >= 8:
+		hd.Name = str(1)
+		hd.Comment = str(1)
+		hd.Extra = []bz.Sub{{ID: [2]byte{'X', 'Y'}, Data: bytes.Repeat([]byte{7}, n-8)}}
+	case n >= 4:
+		hd.Extra = []bz.Sub{{ID: [2]byte{'X', 'Y'}, Data: bytes.Repeat([]byte{7}, n-4)}}
+	case n >= 2:
+		hd.Name = str(n - 1)
+	default:
+		return nil // a single byte cannot be added
+	}
+	return hd
+}
+
+func runE(c ECase, rec *h.Rec) {
+	ops := []bz.WOp{{K: "write", P: bz.Pay{Kind: 2, Seed: c.Seed, Len: bz.BlockSize - c.Short}}}
+	if c.Flush {
+		ops = append(ops, bz.WOp{K: "flush"})
+	}
+	base := bz.Script{Level: c.Level, WC: c.WC, Ops: ops}
+	o0 := base.Run(20 * time.Second)
+	if o0.Hung != "" || len(o0.Errs) > 0 {
+		rec.Failf("plain run failed: %v %v", o0.Hung, o0.Errs)
+		return
+	}
+	if o0.Overflow {
+		rec.Skip("the block does not fit even with the default header")
+		return
+	}
+	ms0, err := bz.Walk(o0.Out)
+	if err != nil || len(ms0) < 1 {
+		rec.Failf("plain run: output is not BGZF: %v", err)
+		return
+	}
+	hd := pad(c.Via, c.Target-ms0[0].Size)
+	if c.Target < ms0[0].Size || hd == nil {
+		rec.Skip("target size below the unpadded member size")
+		return
+	}
+	s := base
+	s.Hdr = hd
+	o := s.Run(20 * time.Second)
+	if o.Hung != "" {
+		rec.Failf("writer call %s did not return", o.Hung)
+		return
+	}
+	if len(o.Errs) > 0 {
+		rec.Failf("writer: %s", o.Errs[0])
+		return
+	}
+	ms, werr := bz.Walk(o.Out)
+	if c.Target <= 65536 {
+		if o.Overflow {
+			rec.Failf("a member of %d bytes (<= 64 KiB) was refused with ErrBlockOverflow (level %d)", c.Target, c.Level)
+			return
+		}
+		if werr != nil {
+			rec.Failf("member of %d bytes: output is not well-formed BGZF: %v", c.Target, werr)
+			return
+		}
+		if len(ms) < 2 || ms[0].Size != c.Target || !bytes.Equal(bz.Concat(ms), o.Model) || !bz.HasMarker(o.Out) {
+			rec.Failf("member of %d bytes: got %d members, first %d bytes long, marker %v", c.Target, len(ms), ms[0].Size, bz.HasMarker(o.Out))
+			return
+		}
+		if got, err := bz.GunzipAll(o.Out); err != nil || !bytes.Equal(got, o.Model) {
+			rec.Failf("member of %d bytes: compress/gzip gives %d bytes, err %v", c.Target, len(got), err)
+			return
+		}
+		rec.Class(fmt.Sprintf("legal_size_%d", c.Target))
+	} else {
+		if !o.Overflow {
+			rec.Failf("a member of %d bytes (> 64 KiB, BSIZE cannot express it) was written without ErrBlockOverflow: Close returned %v, output %d bytes, walker: %v", c.Target, o.CloseErr, len(o.Out), werr)
+			return
+		}
+		if werr != nil {
+			rec.Failf("after ErrBlockOverflow the output is not well-formed BGZF: %v", werr)
+			return
+		}
+		if o.Closed && o.CloseErr == nil {
+			rec.Failf("a %d-byte member was dropped with ErrBlockOverflow, yet Close returned nil", c.Target)
+			return
+		}
+		if bz.HasMarker(o.Out) {
+			rec.Failf("a %d-byte member was dropped with ErrBlockOverflow, yet the output ends with the EOF marker", c.Target)
+			return
+		}
+		rec.Class(fmt.Sprintf("refused_size_%d", c.Target))
+	}
+	rec.NTIf(true)
+}
+
 func TestProp(t *testing.T) {
-	h.Main(t, "C08", h.Rapid("conformance", h.Opt{Quick: 3000, Thorough: 60000}, draw, run))
+	h.Main(t, "C08",
+		h.Rapid("conformance", h.Opt{Quick: 3000, Thorough: 60000}, draw, run),
+		h.Rapid("member_size_edge", h.Opt{Quick: 1500, Thorough: 30000}, drawE, runE),
+	)
 }
 
 var _ = fmt.Sprint
